@@ -22,7 +22,8 @@ Continued in `Props/C04Term.lean` (**termination**: a measure `mu m inp` — 16 
 character, plus the characters that can still travel through a named reference's `name_buf`, plus
 small ranks for pending reconsume / look-ahead / character-reference sub-states — strictly decreases on
 every step that answers Continue and is below `fuelFor m inp`, so `run`, `feed` never run out of fuel;
-`end()` is total and delivers EOF last) and `Props/C04Xml.lean` (the no-panic invariant, feed-drains
+`end()` is total for every sink — from every machine in which `feed` can have stopped it never
+delivers a tag, so the sink is never consulted — and delivers EOF last) and `Props/C04Xml.lean` (the no-panic invariant, feed-drains
 and EOF-last theorems ported to the XML tokenizer model).
 
 `C04_partial`: NOT proved — totality of the tree builders; a fuel bound for the XML tokenizer's `run`;
